@@ -172,6 +172,9 @@ def run(modname, ev, tier, examples_total, nworkers=None, runner_env=None):
     return failures
 
 
+UNCONFIRMED = []      # failures found by a worker that a replay outside Hypothesis did not reproduce (reported in the evidence by vlib.finish)
+
+
 def confirm(modname, failures, pid, times=3):
     """Replay each shrunk failure outside Hypothesis; keep those that fail every time. Returns [(replay_path, what)]."""
     import importlib
@@ -183,12 +186,15 @@ def confirm(modname, failures, pid, times=3):
         key = getattr(mod, "root_cause", lambda f: f["what"][:60])(f)
         if key in seen:
             continue
-        ok = 0
+        ok = passed = attempts = 0
         what = f["what"]
-        for _ in range(times):
+        # a replay that cannot be decided (time-out on a loaded machine) is repeated, not counted: the failure is dropped only when a replay PASSES
+        while ok < times and passed == 0 and attempts < times * 5:
+            attempts += 1
             ctx = Ctx(99, "replay")
             try:
                 mod.check(f["case"], ctx)
+                passed += 1
             except Violation as v:
                 ok += 1
                 what = v.what
@@ -196,10 +202,13 @@ def confirm(modname, failures, pid, times=3):
                 pass
             finally:
                 ctx.close()
-        if ok == times:
+        if ok >= 1 and passed == 0:
             seen.add(key)
-            doc = {"property": pid, "what": what, "case": f["case"], "detail": f.get("detail")}
+            doc = {"property": pid, "what": what, "case": f["case"], "detail": f.get("detail"), "replays": {"failed": ok, "passed": passed, "attempts": attempts}}
             confirmed.append((vlib.save_replay(pid, doc), what))
+        else:
+            sys.stderr.write("[%s] not reproducible (failed %d, passed %d of %d replays), dropped: %s\n" % (pid, ok, passed, attempts, f["what"][:200]))
+            UNCONFIRMED.append({"what": f["what"][:300], "failed": ok, "passed": passed, "attempts": attempts})
     return confirmed
 
 
